@@ -25,6 +25,8 @@ pub mod url;
 pub mod core;
 pub mod application;
 pub mod controller;
+#[cfg(rws_verif)]
+pub mod verif;
 
 
 fn main() {
